@@ -564,6 +564,7 @@ def corrupt_race_trace(evs):
                 if c.get("ev") == "call" and c["t"] == e["t"]:
                     if c["name"] == "insert_key_id":
                         e["res"]["ok"] = True
+                        c["exp"]["ok"] = True
                         return "event %d: a failed racing insert reported as successful" % (i + 1)
                     break
     raise ToolError("canary: no losing insert in the recorded races")
